@@ -52,6 +52,8 @@ def recv_table(fe, rps):
         s = _norm_ctx(U(rp.pip['single'])) if 'single' in rp.pip else None
         cb = U(rp.pip['callback']) if 'callback' in rp.pip else ''
         rows.add((u, s, 'execute' if ('self.' + fe[2]) in cb else cb[:30]))
+    # admission of unit 0 outside the broadcast feature (broadcast rows themselves are exempt, see C10)
+    rows.add(('unit-0-admitted-without-broadcast', any(rp.zero_added and rp.flags.get('broadcast_enable') is not True for rp in rps if rp.pip is not None), ''))
     return rows
 
 
